@@ -108,7 +108,7 @@ fn lib_t(r: Result<Type, miniscript::miniscript::types::ErrorKind>) -> Option<T>
 impl Check for C05 {
     fn id(&self) -> &'static str { "C05" }
     fn rule(&self) -> String {
-        "deterministic phase: complete enumeration of (type constructor x tuple of child types) over all 960 library type values per child: 10 casts, 6 binary combinators (960^2 each), andor (quick: all 80^3 correctness triples and all 12^3 malleability triples, which the rules treat independently, + 2e6 random full triples; thorough: all 960^3), thresh for n=1,2 with every 1<=k<=n (thorough: n=3), leaf constants. Each library result is compared with the specification's rule (transcribed from the reference implementation's ComputeType): accept/reject must agree, the library may never grant a property the specification does not, and on child tuples that satisfy the specification's type invariants the result must be identical except for documented conservative entries. Generated lane: thresholds with 4..7 random children, and whole random ASTs whose stored per-node types are compared with the specification's. Non-trivial = tuples for which the specification accepts; distinct by (constructor, child tuple).".into()
+        "lane `derived`: values that did not come from the parser (decode(encode(M)), the same with key hashes substituted back by substitute_raw_pkh with the full and the empty map, real keys incl. uncompressed): every node's stored type equals the specification's rule applied to its children's stored types. deterministic phase: complete enumeration of (type constructor x tuple of child types) over all 960 library type values per child: 10 casts, 6 binary combinators (960^2 each), andor (quick: all 80^3 correctness triples and all 12^3 malleability triples, which the rules treat independently, + 2e6 random full triples; thorough: all 960^3), thresh for n=1,2 with every 1<=k<=n (thorough: n=3), leaf constants. Each library result is compared with the specification's rule (transcribed from the reference implementation's ComputeType): accept/reject must agree, the library may never grant a property the specification does not, and on child tuples that satisfy the specification's type invariants the result must be identical except for documented conservative entries. Generated lane: thresholds with 4..7 random children, and whole random ASTs whose stored per-node types are compared with the specification's. Non-trivial = tuples for which the specification accepts; distinct by (constructor, child tuple).".into()
     }
     fn assumptions(&self) -> Vec<String> {
         vec![
@@ -118,8 +118,8 @@ impl Check for C05 {
     }
     fn lanes(&self, tier: Tier) -> Vec<(&'static str, usize, usize)> {
         match tier {
-            Tier::Quick => vec![("thresh-n", 2_000_000, 64), ("dispatch", 2_000_000, 300)],
-            Tier::Thorough => vec![("thresh-n", 40_000_000, 64), ("dispatch", 40_000_000, 400)],
+            Tier::Quick => vec![("thresh-n", 2_000_000, 64), ("dispatch", 2_000_000, 300), ("derived", 300_000, 300)],
+            Tier::Thorough => vec![("thresh-n", 40_000_000, 64), ("dispatch", 40_000_000, 400), ("derived", 6_000_000, 400)],
         }
     }
 
@@ -487,6 +487,52 @@ impl Check for C05 {
             }
             return Ok(());
         }
+        if lane == "derived" {
+            // values that did not come from the parser: decode(encode(M)), the same with the key
+            // hashes substituted back, an identity translation, a clone -- every node's stored
+            // type must still be the specification's rule applied to its children's stored types
+            let ctx = *src.pick(&[Ctx::Segwitv0, Ctx::Tap, Ctx::Legacy, Ctx::Bare]);
+            let size = src.range(1, 12);
+            let mut cfg = Cfg::new(ctx, size);
+            cfg.legacy_restrict = false;
+            cfg.allow_uncompressed = matches!(ctx, Ctx::Legacy | Ctx::Bare);
+            let node = gen::gen_ms(src, &cfg);
+            let text = ast::print(&node, true);
+            rep.desc = format!("{:?} derived values of {}", ctx, text);
+            macro_rules! go {
+                ($c:ty) => {{
+                    use miniscript::ToPublicKey;
+                    type K = <$c as miniscript::ScriptContext>::Key;
+                    let mut nn = 0usize;
+                    if let Ok(ms) = Miniscript::<K, $c>::from_str_with_validation_params(&text, &<$c as miniscript::ScriptContext>::CONSENSUS) {
+                        nn += walk_cmp(&ms.clone(), &ast::from_lib(&ms), ctx)?;
+                        if let Ok(dec) = Miniscript::<K, $c>::decode_consensus(&ms.encode()) {
+                            nn += walk_cmp(&dec, &ast::from_lib(&dec), ctx)?;
+                            let mut map = std::collections::BTreeMap::new();
+                            for k in ms.iter_pk() {
+                                map.insert(k.to_pubkeyhash(<$c as miniscript::ScriptContext>::sig_type()), k);
+                            }
+                            let sub = dec.substitute_raw_pkh(&map);
+                            nn += walk_cmp(&sub, &ast::from_lib(&sub), ctx)?;
+                            let none = dec.substitute_raw_pkh(&std::collections::BTreeMap::new());
+                            nn += walk_cmp(&none, &ast::from_lib(&none), ctx)?;
+                        }
+                    }
+                    nn
+                }};
+            }
+            let nn = match ctx {
+                Ctx::Bare => go!(BareCtx),
+                Ctx::Legacy => go!(Legacy),
+                Ctx::Segwitv0 => go!(Segwitv0),
+                Ctx::Tap => go!(Tap),
+            };
+            if nn >= 12 {
+                rep.nontrivial_by(&(ctx as u8, &text));
+            }
+            rep.evals = nn.max(1) as u64;
+            return Ok(());
+        }
         // dispatch lane: whole ASTs, every node's stored type vs the specification
         let ctx = *src.pick(&[Ctx::Segwitv0, Ctx::Tap, Ctx::Legacy, Ctx::Bare]);
         let size = src.range(1, 14);
@@ -555,12 +601,12 @@ fn local_rule(n: &Node, ch: &[T], ctx: Ctx) -> Option<T> {
 
 /// Every node's stored type must be the specification's rule applied to the stored types of
 /// its children (the dispatch from `Terminal` variant to rule, and the rule itself).
-fn walk_cmp<C: miniscript::ScriptContext>(ms: &Miniscript<String, C>, node: &Node, ctx: Ctx) -> Result<usize, Failure> {
+fn walk_cmp<Pk: miniscript::MiniscriptKey, C: miniscript::ScriptContext>(ms: &Miniscript<Pk, C>, node: &Node, ctx: Ctx) -> Result<usize, Failure> {
     let mut count = 0usize;
-    let mut stack: Vec<(&Miniscript<String, C>, &Node)> = vec![(ms, node)];
+    let mut stack: Vec<(&Miniscript<Pk, C>, &Node)> = vec![(ms, node)];
     while let Some((m, n)) = stack.pop() {
         count += 1;
-        let lc: Vec<&Miniscript<String, C>> = children_of(m);
+        let lc: Vec<&Miniscript<Pk, C>> = children_of(m);
         let nc = n.children();
         if lc.len() != nc.len() {
             return fail("dispatch-shape", format!("child count differs at {}", ast::print(n, false)));
